@@ -298,6 +298,30 @@ mod h_inherent {
     pub struct FA { #[darling(default)] pub k: u32 }
     own_items!(Inner, R, E, NT, DI, F, V, TP, FA);
 }
+mod h_user_types {
+    // the receiver crate's own types named like darling's and syn's public items, used as members
+    macro_rules! ut { ($($n:ident),*) => { $( #[derive(darling::FromMeta)] pub struct $n { #[darling(default)] pub p: u32 } impl ::core::default::Default for $n { fn default() -> Self { $n { p: 0 } } } )* } }
+    ut!(Shape, ShapeSet, Error, Accumulator, Flag, Override, SpannedValue, WithOriginal, Data, Fields, Style, NestedMeta, Meta, Ident, Attribute, Generics, PathList, IdentString, Ignored, Callable, Result, Span, DeriveInput, Field, Variant, TypeParam, FromMeta, FromDeriveInput);
+    #[derive(darling::FromMeta)]
+    pub struct R { pub a: Shape, #[darling(default)] pub b: ShapeSet, #[darling(multiple)] pub c: ::std::vec::Vec<Error>, #[darling(flatten)] pub d: Accumulator, #[darling(default)] pub e: ::core::option::Option<Flag>, pub f: Meta, pub g: NestedMeta, pub h: Result, pub i: FromMeta }
+    #[derive(darling::FromMeta)]
+    pub enum E { A(Shape), B { x: Error, #[darling(default)] y: Data }, C(Result), D }
+    #[derive(darling::FromDeriveInput)]
+    #[darling(attributes(a), forward_attrs, supports(struct_named, enum_unit))]
+    pub struct DI { pub ident: ::syn::Ident, pub attrs: ::std::vec::Vec<::syn::Attribute>, pub data: ::darling::ast::Data<V, F>, #[darling(default)] pub a: Shape, #[darling(default)] pub b: Data, #[darling(default)] pub c: Generics, #[darling(default)] pub d: DeriveInput, #[darling(default)] pub e: Attribute }
+    #[derive(darling::FromField)]
+    #[darling(attributes(a), forward_attrs)]
+    pub struct F { pub ident: ::core::option::Option<::syn::Ident>, pub attrs: ::std::vec::Vec<::syn::Attribute>, #[darling(default)] pub a: Field, #[darling(default)] pub b: Ident, #[darling(default)] pub c: Error }
+    #[derive(darling::FromVariant)]
+    #[darling(attributes(a), forward_attrs, supports(unit, newtype))]
+    pub struct V { pub ident: ::syn::Ident, pub fields: ::darling::ast::Fields<F>, #[darling(default)] pub a: Shape, #[darling(default)] pub b: ShapeSet, #[darling(default)] pub c: Variant, #[darling(default)] pub d: Fields, #[darling(default)] pub e: Style }
+    #[derive(darling::FromTypeParam)]
+    #[darling(attributes(a))]
+    pub struct TP { pub ident: ::syn::Ident, #[darling(default)] pub a: TypeParam, #[darling(default)] pub b: Generics }
+    #[derive(darling::FromAttributes)]
+    #[darling(attributes(a))]
+    pub struct FA { #[darling(default)] pub a: Attribute, #[darling(multiple)] pub m: ::std::vec::Vec<Meta> }
+}
 mod h_generic_names {
     // parameters named like what generated code mentions
     #[derive(darling::FromMeta)]
@@ -349,6 +373,22 @@ const NEGATIVES: [(&str, &str); 3] = [
     ("from_word", "#[derive(darling::FromMeta)] #[darling(from_word = || { let _ = &__items; Ok(R { a: 1 }) })] pub struct R { pub a: u32 } fn main() {}"),
     ("from_none", "fn outer() { let captured = 5u32; #[derive(darling::FromMeta)] #[darling(from_none = || Some(R { a: captured }))] pub struct R { pub a: u32 } } fn main() {}"),
 ];
+
+/// The hygiene receivers (fully qualified member types) in a crate of an older edition: what the
+/// impls need must not depend on the 2021 prelude (`TryFrom`, `TryInto`, `FromIterator`).
+fn write_edition_crate(name: &str, edition: &str) {
+    let dir = harness_dir().join("gen").join(name);
+    let toml = format!(
+        "[package]\nname = \"{name}\"\nversion = \"0.0.0\"\nedition = \"{edition}\"\n[dependencies]\ndarling = {{ workspace = true, features = [\"suggestions\"] }}\nsyn = {{ workspace = true }}\n"
+    );
+    write_if_changed_pub(&dir.join("Cargo.toml"), &toml);
+    let externs = if edition == "2015" { "extern crate core;\nextern crate darling;\nextern crate syn;\n" } else { "" };
+    // in the 2015 edition `::name` is a path from the crate root, which the `extern crate` items
+    // provide; `darling::X` inside a module needs the leading `::` there
+    let recv = if edition == "2015" { HYGIENE_RECEIVERS.replace("#[derive(darling::", "#[derive(::darling::") } else { HYGIENE_RECEIVERS.to_string() };
+    let src = format!("#![allow(dead_code, unused)]\n{externs}mod plain {{\n{recv}}}\nfn main() {{}}\n");
+    write_if_changed_pub(&dir.join("src/main.rs"), &src);
+}
 
 fn write_crate(name: &str, src: &str) {
     let dir = harness_dir().join("gen").join(name);
@@ -428,13 +468,15 @@ pub fn generate_c20() -> (Vec<String>, Vec<String>) {
     let (shapes, _n) = shapes_src();
     write_crate("c20_shapes", &shapes);
     write_crate("c20_hygiene", &hygiene_src());
+    write_edition_crate("c20_edition2018", "2018");
+    write_edition_crate("c20_edition2015", "2015");
     let mut neg = vec![];
     for (pos, src) in NEGATIVES {
         let n = format!("c20_neg_{pos}");
         write_crate(&n, src);
         neg.push(n);
     }
-    (vec!["c20_generic".to_string(), "c20_shapes".to_string(), "c20_hygiene".to_string()], neg)
+    (vec!["c20_generic".to_string(), "c20_shapes".to_string(), "c20_hygiene".to_string(), "c20_edition2018".to_string(), "c20_edition2015".to_string()], neg)
 }
 
 fn rustc_errors(stderr: &str) -> Vec<(String, String)> {
